@@ -19,6 +19,7 @@ import (
 	"os"
 	"runtime"
 	"sync"
+	"time"
 
 	"golang.org/x/crypto/hkdf"
 )
@@ -390,3 +391,12 @@ func ResolveCount() int { return -1 }
 
 // LastResolved: the first answer of the scripted resolver (engine); nil natively.
 func LastResolved() []byte { return nil }
+
+// Settle lets every other goroutine run until it finishes or blocks.
+func Settle() { time.Sleep(50 * time.Millisecond) }
+
+// HTTPPosts: number of http.Post calls recorded by the engine (-1 natively).
+func HTTPPosts() int { return -1 }
+
+// HTTPPostBody returns the body of the i-th recorded http.Post (engine only).
+func HTTPPostBody(i int) []byte { return nil }
